@@ -108,7 +108,7 @@ def si_history_ok(sc, r, obs_out=None):
                 ws.append((w["commit"], w["start"], None))
         hist[k] = sorted(ws)
     if obs_out is not None:
-        obs_out["hist"] = hist; obs_out["obs"] = []
+        obs_out["hist"] = hist; obs_out["obs"] = []; obs_out["scans"] = []
     def read_at(k, ts):
         best = None
         for c, s, val in hist[k]:
@@ -165,6 +165,9 @@ def si_history_ok(sc, r, obs_out=None):
             if st["op"] == "rscan":
                 want.reverse()
             got = [p for p in (res.get("pairs") or []) if p[0] in sc["keys"] or p[0] in buf[t]]
+            if obs_out is not None and st["op"] == "scan" and all(k in hist for k in buf[t]) and all(p[1] not in (None, "") for p in got):
+                obs_out["scans"].append({"step": i, "ts": S, "keys": [k for k in sorted(sc["keys"]) if (lo == "" or k >= lo) and (hi == "" or k < hi)],
+                                         "own": dict(buf[t]), "got": [list(p) for p in got], "py_ok": got == want})
             if got != want:
                 bad.append(f"step {i}: {t}.{st['op']}[{lo},{hi}) = {got}, want {want}")
         elif st["op"] == "lock" and "err" not in res:
@@ -251,7 +254,11 @@ def coq_oracle_lines(items):
         h = ";".join("%x=%s" % (kid[k], ",".join("%x.%x.%s" % (c, s_, V(val)) for c, s_, val in oo["hist"][k])) for k in sorted(keys))
         o = ",".join("%x.%x.%s.%s" % (ob["ts"], kid[ob["k"]], ("n" if not ob["own"] else ("d" if ob["own_v"] is None else "v" + V(ob["own_v"]))), V(ob["got"]))
                      for ob in oo["obs"])
-        lines.append(f"{hid} {h or '~'} {o or '~'}")
+        sl = ";".join("%x/%s/%s/%s" % (sn["ts"], ".".join("%x" % kid[k] for k in sn["keys"]) or "~",
+                                       ",".join("%x:%s" % (kid[k], "d" if w in (None, "") else "v" + V(w)) for k, w in sorted(sn["own"].items())) or "~",
+                                       ",".join("%x:%s" % (kid[p[0]], V(p[1])) for p in sn["got"]) or "~")
+                      for sn in oo.get("scans", []))
+        lines.append(f"{hid} {h or '~'} {o or '~'} {sl or '~'}")
     return lines
 
 
@@ -261,11 +268,19 @@ def coq_oracle_diff(mexe, items):
     out = subprocess.run([mexe], input="\n".join(coq_oracle_lines(items)) + "\n", capture_output=True, text=True, timeout=600)
     if out.returncode != 0:
         return 0, [{"error": out.stderr[-400:]}]
-    got = dict(l.split(" ", 1) for l in out.stdout.splitlines() if l.strip())
+    got = {l.split(" ")[0]: l.split(" ")[1:] for l in out.stdout.splitlines() if l.strip()}
     n, dis = 0, []
     for hid, keys, oo in items:
-        bits = got.get(hid, "")
-        bits = "" if bits == "~" else bits
+        ans = got.get(hid) or ["", ""]
+        bits = "" if ans[0] == "~" else ans[0]
+        sbits = "" if len(ans) < 2 or ans[1] == "~" else ans[1]
+        if len(sbits) != len(oo.get("scans", [])):
+            dis.append({"history": hid, "error": "scan answer length"})
+        else:
+            for sn, b in zip(oo.get("scans", []), sbits):
+                n += 1
+                if (b == "1") != sn["py_ok"]:
+                    dis.append({"history": hid, "scan": sn, "coq_scan_ok": b == "1", "python_ok": sn["py_ok"]})
         if len(bits) != len(oo["obs"]):
             dis.append({"history": hid, "error": "answer length"}); continue
         for ob, b in zip(oo["obs"], bits):
